@@ -22,23 +22,24 @@ Proof.
 Qed.
 Lemma col_eqb_sound a b : col_eqb a b = true -> a = b.
 Proof.
-  destruct a as [n1 t1 d1], b as [n2 t2 d2]; unfold col_eqb; simpl. intros E.
-  apply andb_true_iff in E as [E E3]. apply andb_true_iff in E as [E1 E2].
-  apply N.eqb_eq in E1, E2. subst. f_equal.
+  destruct a as [n1 t1 d1 q1], b as [n2 t2 d2 q2]; unfold col_eqb; simpl. intros E.
+  apply andb_true_iff in E as [E E4]. apply andb_true_iff in E as [E E3]. apply andb_true_iff in E as [E1 E2].
+  apply N.eqb_eq in E1, E2. apply Bool.eqb_prop in E4. subst. f_equal.
   destruct d1, d2; simpl in E3; try discriminate; auto. apply value_eqb_sound in E3. congruence.
 Qed.
 Lemma table_eqb_sound a b : table_eqb a b = true -> a = b.
 Proof.
   destruct a, b; unfold table_eqb; simpl. intros E.
-  apply andb_true_iff in E as [E E3]. apply andb_true_iff in E as [E1 E2].
+  apply andb_true_iff in E as [E E4]. apply andb_true_iff in E as [E E3]. apply andb_true_iff in E as [E1 E2].
   apply N.eqb_eq in E1. apply (list_eqb_sound _ col_eqb_sound) in E2.
-  apply (list_eqb_sound _ (list_eqb_sound _ value_eqb_sound)) in E3. congruence.
+  apply (list_eqb_sound _ text_eqb_sound) in E3.
+  apply (list_eqb_sound _ (list_eqb_sound _ value_eqb_sound)) in E4. congruence.
 Qed.
 Lemma index_eqb_sound a b : index_eqb a b = true -> a = b.
 Proof.
   destruct a, b; unfold index_eqb; simpl. intros E.
-  apply andb_true_iff in E as [E E3]. apply andb_true_iff in E as [E1 E2].
-  apply N.eqb_eq in E1, E2. apply text_eqb_sound in E3. congruence.
+  apply andb_true_iff in E as [E E4]. apply andb_true_iff in E as [E E3]. apply andb_true_iff in E as [E1 E2].
+  apply N.eqb_eq in E1, E2. apply text_eqb_sound in E3. apply Bool.eqb_prop in E4. congruence.
 Qed.
 Lemma obs_eqb_sound a b : obs_eqb a b = true -> a = b.
 Proof.
@@ -49,7 +50,7 @@ Proof.
 Qed.
 Lemma check_C12_sound i o : check_C12 i o = true -> C12_holds i o.
 Proof.
-  unfold check_C12, C12_holds, oobs_eqb. destruct (o_on o), (o_off o); try congruence.
+  unfold check_C12, C12_holds, robs_holdsb. destruct (o_on o), (o_off o); try congruence; auto.
   intros E; apply obs_eqb_sound in E; congruence.
 Qed.
 
@@ -89,16 +90,18 @@ Proof.
 Qed.
 
 (* ================================================================ C. replay of the offline stream = online run *)
-Lemma exec_list_app {A} (rd : A -> value) a b d :
-  exec_list rd d (a ++ b) = match exec_list rd d a with Some d' => exec_list rd d' b | None => None end.
-Proof. revert d; induction a as [|s a IH]; intros d; simpl; auto. destruct (exec_stmt rd d s); auto. Qed.
-
-Lemma app_some {A} (rd : A -> value) a b d d' :
-  exec_list rd d a = Some d' -> exec_list rd d (a ++ b) = exec_list rd d' b.
-Proof. intros E. now rewrite exec_list_app, E. Qed.
-Lemma app_none {A} (rd : A -> value) a b d :
-  exec_list rd d a = None -> exec_list rd d (a ++ b) = None.
-Proof. intros E. now rewrite exec_list_app, E. Qed.
+Lemma run_app {A} (rd : A -> value) a b d :
+  exec_run rd d (a ++ b) = let (d1, ok) := exec_run rd d a in if ok then exec_run rd d1 b else (d1, false).
+Proof.
+  revert d; induction a as [|s a IH]; intros d; simpl; auto.
+  destruct (exec_stmt rd d s); auto.
+Qed.
+Lemma run_app_ok {A} (rd : A -> value) a b d d1 :
+  exec_run rd d a = (d1, true) -> exec_run rd d (a ++ b) = exec_run rd d1 b.
+Proof. intros E. now rewrite run_app, E. Qed.
+Lemma run_app_fail {A} (rd : A -> value) a b d d1 :
+  exec_run rd d a = (d1, false) -> exec_run rd d (a ++ b) = (d1, false).
+Proof. intros E. now rewrite run_app, E. Qed.
 
 (* a user-level statement leaves the version table alone *)
 Lemma exec_stmt_user_snd {A} (rd : A -> value) d s d' :
@@ -110,18 +113,20 @@ Proof.
   - induction rows; simpl; auto.
   - destruct r; reflexivity.
 Qed.
-Lemma exec_list_user_snd {A} (rd : A -> value) l : forallb (fun s => negb (is_vstmt s)) l = true ->
-  forall d d', exec_list rd d l = Some d' -> snd d' = snd d.
+Lemma run_user_snd {A} (rd : A -> value) l : forallb (fun s => negb (is_vstmt s)) l = true ->
+  forall d d' ok, exec_run rd d l = (d', ok) -> snd d' = snd d.
 Proof.
-  induction l as [|s l IH]; simpl; intros H d d' E. { inversion E; auto. }
+  induction l as [|s l IH]; simpl; intros H d d' ok E. { inversion E; auto. }
   apply andb_true_iff in H as [H1 H2]. apply negb_true_iff in H1.
-  destruct (exec_stmt rd d s) as [d1|] eqn:E1; try discriminate.
-  rewrite (IH H2 _ _ E). eapply exec_stmt_user_snd; eauto.
+  destruct (exec_stmt rd d s) as [d1|] eqn:E1.
+  - rewrite (IH H2 _ _ _ E). eapply exec_stmt_user_snd; eauto.
+  - inversion E; auto.
 Qed.
 Lemma body_user {A} (f g : value -> A) (e : text -> A) b : forallb (fun s => negb (is_vstmt s)) (flat_map (compile_op f g e) b) = true.
 Proof. induction b as [|o b IH]; simpl; auto. rewrite forallb_app, compile_op_user, IH. reflexivity. Qed.
 
-(* two readings of the literal positions that agree on the literals of an operation give the same execution *)
+(* two readings of the literal positions that agree on the literals of an operation give the same execution,
+   including where it stops and what it leaves behind *)
 Lemma fill_row_ext {A B} (rdA : A -> value) (rdB : B -> value) {V} (fA : V -> A) (fB : V -> B) cols : forall cells,
   (forall v, In v (somes cells) -> rdA (fA v) = rdB (fB v)) ->
   fill_row rdA cols (map (option_map fA) cells) = fill_row rdB cols (map (option_map fB) cells).
@@ -143,7 +148,7 @@ Lemma read_col_ext {A B} (rdA : A -> value) (rdB : B -> value) (fA : value -> A)
   (forall v, In v (col_values c) -> rdA (fA v) = rdB (fB v)) ->
   read_col rdA (compile_col fA c) = read_col rdB (compile_col fB c).
 Proof.
-  destruct c as [n t [v|]]; unfold read_col, compile_col, col_values; simpl; intros H; auto.
+  destruct c as [n t [v|] q]; unfold read_col, compile_col, col_values; simpl; intros H; auto.
   now rewrite (H v (or_introl eq_refl)).
 Qed.
 Lemma read_cols_ext {A B} (rdA : A -> value) (rdB : B -> value) (fA : value -> A) (fB : value -> B) cols :
@@ -157,39 +162,50 @@ Qed.
 Lemma sc_names {A} (f : value -> A) cols : map sc_name (map (compile_col f) cols) = map c_name cols.
 Proof. rewrite map_map. reflexivity. Qed.
 
+Lemma run_one {A} (rd : A -> value) d s :
+  exec_run rd d [s] = match exec_stmt rd d s with Some d' => (d', true) | None => (d, false) end.
+Proof. reflexivity. Qed.
+
 Lemma compile_op_ext {A B} (rdA : A -> value) (rdB : B -> value)
       (fA dA : value -> A) (eA : text -> A) (fB dB : value -> B) (eB : text -> B) o :
   (forall v, In v (op_values o) -> rdA (fA v) = rdB (fB v) /\ rdA (dA v) = rdB (dB v)) ->
   (forall w, In w (op_texts o) -> rdA (eA w) = rdB (eB w)) ->
-  forall d, exec_list rdA d (compile_op fA dA eA o) = exec_list rdB d (compile_op fB dB eB o).
+  forall d, exec_run rdA d (compile_op fA dA eA o) = exec_run rdB d (compile_op fB dB eB o).
 Proof.
   intros H HT d. destruct o; try reflexivity.
-  - (* CreateTable *) simpl in *. unfold exec_stmt; simpl. rewrite !sc_names.
+  - (* CreateTable *) cbn [compile_op]. rewrite !run_one.
+    replace (exec_stmt rdA d (SCreateTable t (map (compile_col dA) cols) uniq))
+       with (exec_stmt rdB d (SCreateTable t (map (compile_col dB) cols) uniq)); auto.
+    unfold exec_stmt; simpl. rewrite !sc_names.
     rewrite (read_cols_ext rdA rdB dA dB cols) by (intros v Hv; apply H; auto).
     destruct cols; reflexivity.
-  - (* AddColumn *) simpl in *. unfold exec_stmt; simpl.
+  - (* AddColumn *) cbn [compile_op]. rewrite !run_one.
+    replace (exec_stmt rdA d (SAddColumn t (compile_col dA c)))
+       with (exec_stmt rdB d (SAddColumn t (compile_col dB c))); auto.
+    unfold exec_stmt; simpl.
     rewrite (read_col_ext rdA rdB dA dB c) by (intros v Hv; apply H; auto). reflexivity.
   - (* BulkInsert *) simpl in *. revert d. induction rows as [|row rows IH]; intros d; simpl; auto.
     rewrite (exec_insert_ext rdA rdB fA fB d t row).
     2:{ intros v Hv. apply H. simpl. apply in_or_app; auto. }
     destruct (exec_stmt rdB d (SInsert t (map (option_map fB) row))); auto.
     apply IH. intros v Hv. apply H. simpl. apply in_or_app; auto.
-  - (* Execute *) destruct r; simpl in *.
+  - (* Execute *) destruct r; cbn [compile_op compile_raw]; rewrite !run_one; simpl in *.
     + rewrite (exec_insert_ext rdA rdB eA eB d t cells); auto.
     + reflexivity.
-    + unfold exec_stmt; simpl. rewrite (HT w (or_introl eq_refl)). reflexivity.
+    + replace (exec_stmt rdA d (SUpdateAll t c (eA w))) with (exec_stmt rdB d (SUpdateAll t c (eB w))); auto.
+      unfold exec_stmt; simpl. rewrite (HT w (or_introl eq_refl)). reflexivity.
 Qed.
 Lemma body_ext {A B} (rdA : A -> value) (rdB : B -> value)
       (fA dA : value -> A) (eA : text -> A) (fB dB : value -> B) (eB : text -> B) b :
   (forall v, In v (flat_map op_values b) -> rdA (fA v) = rdB (fB v) /\ rdA (dA v) = rdB (dB v)) ->
   (forall w, In w (flat_map op_texts b) -> rdA (eA w) = rdB (eB w)) ->
-  forall d, exec_list rdA d (flat_map (compile_op fA dA eA) b) = exec_list rdB d (flat_map (compile_op fB dB eB) b).
+  forall d, exec_run rdA d (flat_map (compile_op fA dA eA) b) = exec_run rdB d (flat_map (compile_op fB dB eB) b).
 Proof.
   induction b as [|o b IH]; intros H HT d; simpl; auto.
-  rewrite !exec_list_app. rewrite (compile_op_ext rdA rdB fA dA eA fB dB eB o).
+  rewrite !run_app. rewrite (compile_op_ext rdA rdB fA dA eA fB dB eB o).
   2:{ intros v Hv. apply H. simpl. apply in_or_app; auto. }
   2:{ intros w Hw. apply HT. simpl. apply in_or_app; auto. }
-  destruct (exec_list rdB d (compile_op fB dB eB o)); auto.
+  destruct (exec_run rdB d (compile_op fB dB eB o)) as [d1 [|]]; auto.
   apply IH. { intros v Hv. apply H. simpl. apply in_or_app; auto. } { intros w Hw. apply HT. simpl. apply in_or_app; auto. }
 Qed.
 
@@ -249,6 +265,15 @@ Section Lit.
     apply (IH h1 h'); auto. eapply hm_apply_NoDup; eauto.
   Qed.
 
+  (* the online statement stream, seen without its transaction bookkeeping, is a plain run *)
+  Lemma on_exec_run_cur l : forall st,
+    exec_run (rd_on parse_lit) (o_cur st) l = (o_cur (fst (on_exec_run parse_lit st l)), snd (on_exec_run parse_lit st l)).
+  Proof.
+    induction l as [|s l IH]; intros st; simpl; auto.
+    unfold on_exec. destruct (exec_stmt (rd_on parse_lit) (o_cur st) s) as [d'|]; simpl; auto.
+    rewrite <- IH. reflexivity.
+  Qed.
+
   (* one bookkeeping statement: what HeadMaintainer does to self.heads is what the statement does to the rows *)
   Lemma bk1_sim {A} (rd : A -> value) u h s h' :
     NoDup h -> hm_apply h s = Some h' ->
@@ -262,27 +287,40 @@ Section Lit.
     - destruct (memN b h) eqn:Mb; try discriminate. destruct (memN a h) eqn:Ma; try discriminate.
       intros E; inversion E; subst. simpl. split; auto. apply countN_NoDup; auto. now apply memN_In.
   Qed.
-  Lemma on_bk1_sim u h s h' :
-    NoDup h -> hm_apply h s = Some h' -> on_bk1 parse_lit (u, Some h) h s = Some ((u, Some h'), h').
+  Lemma on_bk1_sim st h s h' :
+    NoDup h -> snd (o_cur st) = Some h -> hm_apply h s = Some h' ->
+    exists st', on_bk1 parse_lit st h s = Some (st', h') /\ o_cur st' = (fst (o_cur st), Some h').
   Proof.
-    intros ND E. unfold on_bk1. rewrite E. destruct (bk1_sim (rd_on parse_lit) u h s h' ND E) as [-> C].
-    unfold vers_rows; simpl. destruct s; auto; rewrite C; reflexivity.
+    intros ND S E. unfold on_bk1, on_exec. rewrite E.
+    destruct st as [[u v] sn]; simpl in *. subst v.
+    destruct (bk1_sim (rd_on parse_lit) u h s h' ND E) as [-> C].
+    unfold vers_rows; simpl.
+    assert (RC : match s with VIns _ => true | VDel r => Nat.eqb (countN r h) 1 | VUpd a _ => Nat.eqb (countN a h) 1 end = true)
+      by (destruct s; auto; rewrite C; reflexivity).
+    rewrite RC. eexists. split; reflexivity.
   Qed.
-  Lemma on_bk1_fail d h s : hm_apply h s = None -> on_bk1 parse_lit d h s = None.
-  Proof. intros E. unfold on_bk1. now rewrite E. Qed.
 
-  Lemma bk_sim l : forall u h, NoDup h ->
+  Lemma bk_sim l : forall st h, NoDup h -> snd (o_cur st) = Some h ->
     match hm_list h l with
-    | None => on_bk parse_lit (u, Some h) h l = None
-    | Some h' => on_bk parse_lit (u, Some h) h l = Some ((u, Some h'), h') /\
-                 exec_list parse_lit (u, Some h) (map vstmt_sql l) = Some (u, Some h')
+    | None => snd (on_bk parse_lit st h l) = false
+    | Some h' => exists st', on_bk parse_lit st h l = (st', h', true) /\ o_cur st' = (fst (o_cur st), Some h') /\
+                 exec_run parse_lit (o_cur st) (map vstmt_sql l) = ((fst (o_cur st), Some h'), true)
     end.
   Proof.
-    induction l as [|s l IH]; intros u h ND; simpl. { auto. }
+    induction l as [|s l IH]; intros st h ND S; simpl.
+    { assert (Ec : o_cur st = (fst (o_cur st), Some h)) by (destruct (o_cur st); simpl in *; congruence).
+      exists st. split; [reflexivity|]. split; [exact Ec|]. now rewrite <- Ec. }
     destruct (hm_apply h s) as [h1|] eqn:E1.
-    - rewrite (on_bk1_sim u h s h1 ND E1). destruct (bk1_sim parse_lit u h s h1 ND E1) as [-> _].
-      apply IH. eapply hm_apply_NoDup; eauto.
-    - now rewrite on_bk1_fail.
+    - destruct (on_bk1_sim st h s h1 ND S E1) as [st1 [B1 C1]]. rewrite B1.
+      assert (ND1 : NoDup h1) by (eapply hm_apply_NoDup; eauto).
+      assert (S1 : snd (o_cur st1) = Some h1) by (rewrite C1; reflexivity).
+      specialize (IH st1 h1 ND1 S1).
+      destruct st as [[u v] sn]; simpl in S; subst v. simpl in *.
+      destruct (bk1_sim parse_lit u h s h1 ND E1) as [X _].
+      destruct (hm_list h1 l) as [h'|]; auto.
+      destruct IH as [st' [I1 [I2 I3]]]. rewrite C1 in I2, I3. simpl in I2, I3.
+      exists st'. rewrite X. repeat split; auto.
+    - unfold on_bk1. rewrite E1. reflexivity.
   Qed.
 
   (* ---- literals *)
@@ -291,22 +329,22 @@ Section Lit.
     (forall w, In w texts -> no_tab (untext w) = true).
 
   Lemma body_sim b : lits_ok (flat_map op_values b) (flat_map op_texts b) ->
-    forall d, exec_list parse_lit d (body_off lit untext b) = exec_list (rd_on parse_lit) d (body_on lit untext b).
+    forall d, exec_run parse_lit d (body_off lit untext b) = exec_run (rd_on parse_lit) d (body_on lit untext b).
   Proof.
     intros [H HT] d. unfold body_off, body_on, compile_off, compile_on. apply body_ext.
     - intros v Hv. destruct (H v Hv) as [R T]. unfold off_lit. simpl.
       rewrite (post_identity lit parse_lit v R T). auto.
     - intros w Hw. unfold off_text, post. simpl. now rewrite (replace_tab_id _ (HT w Hw)).
   Qed.
-  Lemma body_on_snd b d d' : exec_list (rd_on parse_lit) d (body_on lit untext b) = Some d' -> snd d' = snd d.
-  Proof. apply exec_list_user_snd. apply body_user. Qed.
+  Lemma body_on_snd b d d' ok : exec_run (rd_on parse_lit) d (body_on lit untext b) = (d', ok) -> snd d' = snd d.
+  Proof. apply run_user_snd. apply body_user. Qed.
 
   (* ---- the step invariant: offline HeadMaintainer.heads = online version rows, user tables equal *)
   Definition off_pre (doff : db) (h : list N) : Prop :=
     (snd doff = Some h /\ h <> []) \/ (snd doff = None /\ h = []).
 
   Lemma pre_sim doff h : off_pre doff h ->
-    exec_list parse_lit doff (match h with [] => [SVCreate] | _ => [] end) = Some (fst doff, Some h).
+    exec_run parse_lit doff (match h with [] => [SVCreate] | _ => [] end) = ((fst doff, Some h), true).
   Proof.
     intros [[E NEh]|[E ->]].
     - destruct h as [|x h]; [now elim NEh|]. simpl. destruct doff as [u v]; simpl in *. now rewrite E.
@@ -319,60 +357,165 @@ Section Lit.
     cbn [mid_nonempty]. intros M E. rewrite E in M. destruct h'; try discriminate. split; auto. discriminate.
   Qed.
 
-  Definition sim_result (steps : list step) (doff : db) (hf : list N) (roff : option db) (ron : option (db * list N)) : Prop :=
-    match roff, ron with
-    | None, None => True
-    | Some d1, Some (d2, h2) => fst d1 = fst d2 /\ h2 = hf /\ snd d2 = Some hf /\
-                                snd d1 = match steps with [] => snd doff | _ => Some hf end
-    | _, _ => False
-    end.
+  (* how the offline replay (database reached, completed?) relates to the online run (state, heads, completed?) *)
+  Definition sim_run (steps : list step) (doff : db) (hf : list N) (roff : db * bool) (ron : ostate * list N * bool) : Prop :=
+    let '(p, ok1) := roff in
+    let '(st, h2, ok2) := ron in
+    ok1 = ok2 /\
+    (ok1 = true -> fst p = fst (o_cur st) /\ h2 = hf /\ snd (o_cur st) = Some hf /\
+                   snd p = match steps with [] => snd doff | _ => Some hf end) /\
+    (ok1 = false -> p = o_cur st).                (* both stopped at the same statement *)
 
-  Lemma steps_sim steps : forall h doff,
-    NoDup h -> off_pre doff h -> mid_nonempty h steps = true -> lits_ok (steps_values steps) (steps_texts steps) ->
+  Lemma steps_sim steps : forall h doff st,
+    NoDup h -> off_pre doff h -> fst (o_cur st) = fst doff -> snd (o_cur st) = Some h ->
+    mid_nonempty h steps = true -> lits_ok (steps_values steps) (steps_texts steps) ->
     match off_steps lit untext h steps with
-    | None => on_steps lit parse_lit untext (fst doff, Some h) h steps = None
-    | Some (s, hf) => sim_result steps doff hf (exec_list parse_lit doff s) (on_steps lit parse_lit untext (fst doff, Some h) h steps)
+    | None => snd (on_steps lit parse_lit untext st h steps) = false
+    | Some (s, hf) => sim_run steps doff hf (exec_run parse_lit doff s) (on_steps lit parse_lit untext st h steps)
     end.
   Proof.
-    induction steps as [|st r IH]; intros h doff ND P M L.
-    { simpl. repeat split; auto. }
-    assert (Lb : lits_ok (flat_map op_values (s_body st)) (flat_map op_texts (s_body st))).
+    induction steps as [|stp r IH]; intros h doff st ND P F S M L.
+    { simpl. repeat split; auto; discriminate. }
+    assert (Lb : lits_ok (flat_map op_values (s_body stp)) (flat_map op_texts (s_body stp))).
     { destruct L as [L1 L2]. split; [intros v Hv; apply L1|intros v Hv; apply L2];
         unfold steps_values, steps_texts; simpl; apply in_or_app; auto. }
     assert (Lr : lits_ok (steps_values r) (steps_texts r)).
     { destruct L as [L1 L2]. split; [intros v Hv; apply L1|intros v Hv; apply L2];
         unfold steps_values, steps_texts; simpl; apply in_or_app; auto. }
     cbn [off_steps on_steps].
-    rewrite <- (body_sim (s_body st) Lb).
     pose proof (pre_sim doff h P) as Hpre.
-    destruct (hm_list h (s_bk st)) as [h'|] eqn:Ehm.
-    2:{ (* the heads bookkeeping fails: online fails as well (in the body or in the bookkeeping) *)
-        destruct (exec_list parse_lit (fst doff, Some h) (body_off lit untext (s_body st))) as [d1|] eqn:Eb; auto.
-        assert (S1 : snd d1 = Some h).
-        { rewrite (body_sim (s_body st) Lb) in Eb. now rewrite (body_on_snd _ _ _ Eb). }
-        destruct d1 as [u1 v1]; simpl in S1; subst v1.
-        pose proof (bk_sim (s_bk st) u1 h ND) as B. rewrite Ehm in B. now rewrite B. }
+    assert (Ecur : o_cur st = (fst doff, Some h)) by (destruct (o_cur st); simpl in *; congruence).
+    (* the body: the same run on both sides *)
+    pose proof (on_exec_run_cur (body_on lit untext (s_body stp)) st) as Hb.
+    rewrite <- (body_sim (s_body stp) Lb), Ecur in Hb.
+    destruct (on_exec_run parse_lit st (body_on lit untext (s_body stp))) as [st1 ok1] eqn:Eon. simpl in Hb.
+    assert (S1 : snd (o_cur st1) = Some h).
+    { rewrite (body_sim (s_body stp) Lb) in Hb. now rewrite (body_on_snd _ _ _ _ Hb). }
+    destruct (hm_list h (s_bk stp)) as [h'|] eqn:Ehm.
+    2:{ (* the heads bookkeeping fails while the script is generated: online fails too *)
+        destruct ok1; auto.
+        pose proof (bk_sim (s_bk stp) st1 h ND S1) as B. rewrite Ehm in B.
+        destruct (on_bk parse_lit st1 h (s_bk stp)) as [[st2 h2] [|]]; simpl in *; auto; discriminate. }
     assert (N' : NoDup h') by (eapply hm_list_NoDup; eauto).
-    (* the common prefix of the two runs *)
-    destruct (exec_list parse_lit (fst doff, Some h) (body_off lit untext (s_body st))) as [d1|] eqn:Eb.
-    2:{ destruct (off_steps lit untext h' r) as [[s hf]|]; auto.
-        unfold sim_result. rewrite (app_some _ _ _ _ _ Hpre), (app_none _ _ _ _ Eb). exact I. }
-    assert (S1 : snd d1 = Some h).
-    { rewrite (body_sim (s_body st) Lb) in Eb. now rewrite (body_on_snd _ _ _ Eb). }
-    destruct d1 as [u1 v1]; simpl in S1; subst v1.
-    pose proof (bk_sim (s_bk st) u1 h ND) as B. rewrite Ehm in B. destruct B as [B1 B2]. rewrite B1.
-    destruct r as [|st2 r2].
+    destruct ok1.
+    2:{ (* the body fails: both stop there *)
+        destruct (off_steps lit untext h' r) as [[s hf]|]; auto.
+        unfold sim_run. rewrite (run_app_ok _ _ _ _ _ Hpre), (run_app_fail _ _ _ _ _ Hb).
+        repeat split; auto; discriminate. }
+    pose proof (bk_sim (s_bk stp) st1 h ND S1) as B. rewrite Ehm in B.
+    destruct B as [st2 [B1 [B2 B3]]]. rewrite B1.
+    destruct r as [|stp2 r2].
     - (* last step *)
-      simpl. unfold sim_result. rewrite (app_some _ _ _ _ _ Hpre), (app_some _ _ _ _ _ Eb), (app_some _ _ _ _ _ B2). simpl. auto.
+      simpl. unfold sim_run.
+      rewrite (run_app_ok _ _ _ _ _ Hpre), (run_app_ok _ _ _ _ _ Hb), (run_app_ok _ _ _ _ _ B3). simpl.
+      rewrite B2. simpl. repeat split; auto; discriminate.
     - destruct (mid_step _ _ _ _ _ M Ehm) as [Hne M'].
-      specialize (IH h' (u1, Some h') N' (or_introl (conj eq_refl Hne)) M' Lr). simpl fst in IH.
-      destruct (off_steps lit untext h' (st2 :: r2)) as [[s hf]|]; auto.
-      unfold sim_result in *. rewrite (app_some _ _ _ _ _ Hpre), (app_some _ _ _ _ _ Eb), (app_some _ _ _ _ _ B2).
-      destruct (exec_list parse_lit (u1, Some h') s) as [dd1|], (on_steps lit parse_lit untext (u1, Some h') h' (st2 :: r2)) as [[dd2 hh2]|]; auto.
+      assert (Pn : off_pre (fst (o_cur st1), Some h') h') by (left; split; auto).
+      specialize (IH h' (fst (o_cur st1), Some h') (commit st2) N' Pn).
+      assert (F2 : fst (o_cur (commit st2)) = fst (fst (o_cur st1), Some h')) by (simpl; rewrite B2; reflexivity).
+      assert (S2 : snd (o_cur (commit st2)) = Some h') by (simpl; rewrite B2; reflexivity).
+      specialize (IH F2 S2 M' Lr).
+      destruct (off_steps lit untext h' (stp2 :: r2)) as [[s hf]|]; auto.
+      unfold sim_run in *.
+      rewrite (run_app_ok _ _ _ _ _ Hpre), (run_app_ok _ _ _ _ _ Hb), (run_app_ok _ _ _ _ _ B3).
+      destruct (exec_run parse_lit (fst (o_cur st1), Some h') s) as [p ok].
+      destruct (on_steps lit parse_lit untext (commit st2) h' (stp2 :: r2)) as [[stf hf2] okf].
+      destruct IH as [I1 [I2 I3]]. split; [exact I1|]. split; [|exact I3].
+      intros Hok. destruct (I2 Hok) as [J1 [J2 [J3 J4]]]. repeat split; auto.
   Qed.
 
   Definition db_at (d : db) (start : list N) : Prop :=
     NoDup start /\ snd d = match start with [] => None | _ => Some start end.
+
+  Lemma online_start d start : db_at d start ->
+    (match vers_rows d with [] => ensure_version_table d | _ => d end) = (fst d, Some start) /\ vers_rows d = start.
+  Proof.
+    intros [_ S]. unfold vers_rows, ensure_version_table. rewrite S. destruct start; simpl; auto. split; auto.
+    destruct d; simpl in *; congruence.
+  Qed.
+
+  Definition class_hyps (d:db) (start : list N) (steps : list step) : Prop :=
+    db_at d start /\ mid_nonempty start steps = true /\ (start = [] -> steps <> []) /\
+    lits_ok (steps_values steps) (steps_texts steps).
+
+  Definition script_tail (hf : list N) : list sqlstmt := match hf with [] => [SVDrop] | _ => [] end.
+
+  (* the whole command: script generation, replay, online run *)
+  Lemma whole_sim d start steps : class_hyps d start steps ->
+    match off_steps lit untext start steps with
+    | None => snd (run_online_tx lit parse_lit untext d steps) = false
+    | Some (s, hf) =>
+        let '(p, ok1) := exec_run parse_lit d (s ++ script_tail hf) in
+        let '(st, _, ok2) := run_online_tx lit parse_lit untext d steps in
+        ok1 = ok2 /\ (ok1 = true -> observable p = observable (o_cur st)) /\ (ok1 = false -> p = o_cur st)
+    end.
+  Proof.
+    intros [DA [M [NE L]]]. destruct (online_start d start DA) as [D1 D2]. destruct DA as [ND S].
+    assert (P : off_pre d start). { destruct start; [right|left]; split; auto. discriminate. }
+    unfold run_online_tx. rewrite D1, D2.
+    destruct steps as [|stp r].
+    { (* empty plan: start is not base, nothing is emitted, nothing is run *)
+      destruct start as [|x start]; [exfalso; now apply NE|].
+      simpl. repeat split; auto; try discriminate. intros _. unfold observable. simpl. now rewrite S. }
+    pose proof (steps_sim (stp :: r) start d (mkO (fst d, Some start) None) ND P eq_refl eq_refl M L) as SS.
+    destruct (off_steps lit untext start (stp :: r)) as [[s hf]|]; auto.
+    unfold sim_run in SS. unfold sqlstmt in *. rewrite (run_app parse_lit s (script_tail hf) d).
+    destruct (exec_run parse_lit d s) as [p ok].
+    destruct (on_steps lit parse_lit untext (mkO (fst d, Some start) None) start (stp :: r)) as [[st h2] ok2].
+    destruct SS as [-> [I2 I3]]. destruct ok2.
+    - destruct (I2 eq_refl) as [F [-> [S2 S1]]].
+      destruct hf as [|x hf]; simpl.
+      + (* the run ends at base: offline drops the version table, online leaves it empty *)
+        unfold exec_stmt; simpl. rewrite S1. simpl. repeat split; auto; try discriminate.
+        intros _. unfold observable; simpl. now rewrite F, S2.
+      + repeat split; auto; try discriminate. intros _. unfold observable. now rewrite F, S2, S1.
+    - repeat split; auto; discriminate.
+  Qed.
+
+  (* both runs complete with the same observable, or both are stopped by an error *)
+  Theorem outcome_sim d start steps : class_hyps d start steps ->
+    match offline_outcome lit parse_lit untext d start steps, online_outcome lit parse_lit untext d steps with
+    | Done a, Done b => observable a = observable b
+    | Aborted _, Aborted _ => True
+    | _, _ => False
+    end.
+  Proof.
+    intros H. pose proof (whole_sim d start steps H) as W.
+    unfold offline_outcome, online_outcome, run_offline, replay_run.
+    destruct (off_steps lit untext start steps) as [[s hf]|].
+    - fold (script_tail hf).
+      destruct (exec_run parse_lit d (s ++ script_tail hf)) as [p ok].
+      destruct (run_online_tx lit parse_lit untext d steps) as [[st h2] ok2].
+      destruct W as [-> [W1 W2]]. destruct ok2; auto.
+    - destruct (run_online_tx lit parse_lit untext d steps) as [[st h2] ok2]. simpl in W. subst ok2. exact I.
+  Qed.
+
+  (* when the replay of the generated script is stopped by a failing statement, the online run is stopped too, having
+     executed exactly the same statements: its database before the rollback IS the database the replay leaves behind;
+     what the online run leaves behind is rolled_back of that state *)
+  Theorem abort_same_statement d start steps script : class_hyps d start steps ->
+    run_offline lit untext start steps = Some script ->
+    let '(p, ok1) := replay_run parse_lit d script in
+    let '(st, _, ok2) := run_online_tx lit parse_lit untext d steps in
+    ok1 = ok2 /\ (ok1 = false -> p = o_cur st /\ online_outcome lit parse_lit untext d steps = Aborted (rolled_back st)).
+  Proof.
+    intros H. pose proof (whole_sim d start steps H) as W.
+    unfold run_offline, replay_run, online_outcome.
+    destruct (off_steps lit untext start steps) as [[s hf]|]; try discriminate.
+    intros E; inversion E; subst script; clear E. fold (script_tail hf).
+    destruct (exec_run parse_lit d (s ++ script_tail hf)) as [p ok].
+    destruct (run_online_tx lit parse_lit untext d steps) as [[st h2] ok2].
+    destruct W as [-> [W1 W2]]. split; auto. intros ->. split; auto.
+  Qed.
+
+  Lemma offline_effect_outcome d start steps :
+    offline_effect lit parse_lit untext d start steps =
+    match offline_outcome lit parse_lit untext d start steps with Done a => Some a | Aborted _ => None end.
+  Proof.
+    unfold offline_effect, offline_outcome, replay, replay_run, exec_list.
+    destruct (run_offline lit untext start steps); auto.
+    destruct (exec_run parse_lit d l) as [p [|]]; auto.
+  Qed.
 
   Theorem same_effect d start steps :
     db_at d start -> mid_nonempty start steps = true -> (start = [] -> steps <> []) ->
@@ -381,56 +524,197 @@ Section Lit.
     (forall w, In w (steps_texts steps) -> no_tab (untext w) = true) ->
     option_map observable (offline_effect lit parse_lit untext d start steps) = option_map observable (run_online lit parse_lit untext d steps).
   Proof.
-    intros [ND S] M NE R T TT.
-    assert (L : lits_ok (steps_values steps) (steps_texts steps)) by (split; auto).
-    assert (P : off_pre d start).
-    { destruct start; [right|left]; split; auto. discriminate. }
-    assert (D1 : (match vers_rows d with [] => ensure_version_table d | _ => d end) = (fst d, Some start) /\ vers_rows d = start).
-    { unfold vers_rows, ensure_version_table. rewrite S. destruct start; simpl; auto. split; auto.
-      destruct d; simpl in *; congruence. }
-    destruct D1 as [D1 D2].
-    destruct steps as [|st r].
-    { (* empty plan: start is not base, nothing is emitted, nothing is run *)
-      destruct start as [|x start]; [exfalso; now apply NE|].
-      unfold offline_effect, run_online, run_offline, replay. rewrite D1, D2. simpl.
-      unfold observable. simpl. rewrite S. reflexivity. }
-    pose proof (steps_sim (st :: r) start d ND P M L) as SS.
-    unfold offline_effect, run_online, run_offline, replay. rewrite D1, D2.
-    destruct (off_steps lit untext start (st :: r)) as [[s hf]|].
-    2:{ rewrite SS. reflexivity. }
-    unfold sim_result in SS. cbv beta iota. rewrite (exec_list_app parse_lit s _ d).
-    destruct (exec_list parse_lit d s) as [d1|], (on_steps lit parse_lit untext (fst d, Some start) start (st :: r)) as [[d2 h2]|];
-      try contradiction; auto.
-    destruct SS as [F [-> [S2 S1]]].
-    destruct hf as [|x hf].
-    - (* the run ends at base: offline drops the version table, online leaves it empty *)
-      simpl. unfold exec_stmt; simpl. rewrite S1. simpl. unfold observable; simpl. rewrite F, S2. reflexivity.
-    - simpl. unfold observable. rewrite F, S2, S1. reflexivity.
+    intros DA M NE R T TT.
+    assert (H : class_hyps d start steps).
+    { split; [exact DA|]. split; [exact M|]. split; [exact NE|]. split; [intros v Hv; split; auto|auto]. }
+    pose proof (outcome_sim d start steps H) as O.
+    rewrite offline_effect_outcome. unfold run_online.
+    destruct (offline_outcome lit parse_lit untext d start steps), (online_outcome lit parse_lit untext d steps);
+      simpl; try contradiction; auto. now rewrite O.
+  Qed.
+
+  (* ---- offline heads = online rows, for every plan and independent of the literals *)
+  Theorem heads_invariant steps : forall st h s hf st2 h2,
+    snd (o_cur st) = Some h -> NoDup h ->
+    off_steps lit untext h steps = Some (s, hf) -> on_steps lit parse_lit untext st h steps = (st2, h2, true) ->
+    h2 = hf /\ snd (o_cur st2) = Some hf /\ NoDup hf.
+  Proof.
+    induction steps as [|stp r IH]; intros st h s hf st2 h2 S ND Eoff Eon.
+    { simpl in *. inversion Eoff; inversion Eon; subst. auto. }
+    cbn [off_steps on_steps] in *.
+    destruct (hm_list h (s_bk stp)) as [h'|] eqn:Ehm; try discriminate.
+    destruct (off_steps lit untext h' r) as [[s' hf']|] eqn:Er; try discriminate. inversion Eoff; subst hf'. clear Eoff.
+    pose proof (on_exec_run_cur (body_on lit untext (s_body stp)) st) as Hb.
+    destruct (on_exec_run parse_lit st (body_on lit untext (s_body stp))) as [st1 [|]]; try discriminate. simpl in Hb.
+    pose proof (body_on_snd _ _ _ _ Hb) as S1. rewrite S in S1.
+    pose proof (bk_sim (s_bk stp) st1 h ND S1) as B. rewrite Ehm in B. destruct B as [st2' [B1 [B2 _]]].
+    rewrite B1 in Eon.
+    apply (IH (commit st2') h' s' hf st2 h2); auto.
+    - simpl. rewrite B2. reflexivity.
+    - eapply hm_list_NoDup; eauto.
   Qed.
 End Lit.
 
-(* ================================================================ D. offline heads = online rows (independent of the literals) *)
-Section Heads.
+(* ================================================================ D. the offline script as text *)
+Lemma lstrip_ws w x : forallb is_ws w = true -> lstrip (w ++ x) = lstrip x.
+Proof. induction w as [|c w IH]; simpl; auto. intros H. apply andb_true_iff in H as [H1 H2]. rewrite H1. auto. Qed.
+Lemma forallb_rev {A} (f : A -> bool) l : forallb f (rev l) = forallb f l.
+Proof. induction l as [|x l IH]; simpl; auto. rewrite forallb_app, IH. simpl. rewrite andb_true_r. apply andb_comm. Qed.
+Lemma rstrip_ws x w : forallb is_ws w = true -> rstrip (x ++ w) = rstrip x.
+Proof. intros H. unfold rstrip. rewrite rev_app_distr, lstrip_ws; auto. now rewrite forallb_rev. Qed.
+Lemma replace_tab_ws w : forallb is_ws w = true -> forallb is_ws (replace_tab w) = true.
+Proof.
+  induction w as [|c w IH]; simpl; auto. intros H. apply andb_true_iff in H as [H1 H2].
+  destruct (N.eqb c 9); simpl; rewrite ?H1, IH; auto.
+Qed.
+Lemma replace_tab_nil s : replace_tab s = [] -> s = [].
+Proof. destruct s as [|c s]; simpl; auto. destruct (N.eqb c 9); discriminate. Qed.
+Lemma hd_last_split s : hd_last_ok s = true ->
+  exists a m, s = a :: m /\ is_ws a = false /\ (m = [] \/ exists m' b, m = m' ++ [b] /\ is_ws b = false).
+Proof.
+  destruct s as [|a r]; [discriminate|]. unfold hd_last_ok. intros H.
+  apply andb_true_iff in H as [H1 H2]. apply negb_true_iff in H1, H2.
+  exists a, r. split; auto. split; auto.
+  destruct r as [|x r']. { now left. }
+  right. destruct (@exists_last _ (x :: r')) as [m' [b E]]; [discriminate|]. exists m', b. split; auto.
+  rewrite E in H2. change (a :: m' ++ [b]) with ((a :: m') ++ [b]) in H2. now rewrite last_last in H2.
+Qed.
+Lemma not_ws_not_tab a : is_ws a = false -> N.eqb a 9 = false.
+Proof. intros H. destruct (N.eqb a 9) eqn:E; auto. apply N.eqb_eq in E; subst a. discriminate H. Qed.
+Lemma hd_last_replace s : hd_last_ok s = true -> hd_last_ok (replace_tab s) = true.
+Proof.
+  intros H. destruct (hd_last_split s H) as [a [m [-> [Ha Hm]]]].
+  cbn [replace_tab]. rewrite (not_ws_not_tab a Ha). unfold hd_last_ok. rewrite Ha. simpl negb at 1. cbn [andb].
+  destruct Hm as [->|[m' [b [-> Hb]]]].
+  - simpl. now rewrite Ha.
+  - rewrite replace_tab_app. cbn [replace_tab]. rewrite (not_ws_not_tab b Hb).
+    change (a :: replace_tab m' ++ [b]) with ((a :: replace_tab m') ++ [b]). rewrite last_last. now rewrite Hb.
+Qed.
+Lemma strip_hd_last c t : hd_last_ok c = true -> forallb is_ws t = true -> strip (c ++ t) = c.
+Proof.
+  intros H T. destruct (hd_last_split c H) as [a [m [-> [Ha Hm]]]].
+  unfold strip. cbn [app lstrip]. rewrite Ha.
+  change (a :: m ++ t) with ((a :: m) ++ t). rewrite rstrip_ws by auto.
+  destruct Hm as [->|[m' [b [-> Hb]]]].
+  - unfold rstrip. simpl. now rewrite Ha.
+  - change (a :: m' ++ [b]) with ((a :: m') ++ [b]). now apply rstrip_last.
+Qed.
+Lemma flat_post core : flat (map post_tok core) = replace_tab (flat core).
+Proof.
+  unfold flat. induction core as [|t core IH]; simpl; auto. rewrite replace_tab_app, IH.
+  destruct t; reflexivity.
+Qed.
+(* DefaultImpl._exec on a whole statement text: the blanks around it go, every token gets its tabs replaced, the
+   terminator is appended; nothing else *)
+Theorem exec_post_stext term x : stext_wf x = true ->
+  exec_post term (stext_text x) = flat (map post_tok (st_core x)) ++ term.
+Proof.
+  unfold stext_wf, stext_text, exec_post. intros H.
+  apply andb_true_iff in H as [H _]. apply andb_true_iff in H as [H HC]. apply andb_true_iff in H as [HL HT].
+  rewrite !replace_tab_app, flat_post. f_equal. unfold strip at 1.
+  rewrite lstrip_ws by (now apply replace_tab_ws).
+  fold (strip (replace_tab (flat (st_core x)) ++ replace_tab (st_trail x))).
+  apply strip_hd_last. { now apply hd_last_replace. } now apply replace_tab_ws.
+Qed.
+
+(* reading a statement text token-wise: runs of blanks are interchangeable (a non-empty run stays non-empty), a literal
+   token that still starts and ends with non-blank characters (its delimiters) is read as that literal *)
+Inductive tok_sim (g : text -> text) : tok -> tok -> Prop :=
+| sim_word s : tok_sim g (TWord s) (TWord s)
+| sim_space s s' : forallb is_ws s' = true -> (s' = [] -> s = []) -> tok_sim g (TSpace s) (TSpace s')
+| sim_lit s : hd_last_ok (g s) = true -> tok_sim g (TLit s) (TLit (g s)).
+
+Lemma post_tok_sim core : forallb tok_ok core = true -> Forall2 (tok_sim post) core (map post_tok core).
+Proof.
+  induction core as [|t core IH]; simpl; intros H; constructor.
+  - apply andb_true_iff in H as [H _]. destruct t; simpl in *.
+    + rewrite (replace_tab_id _ H). constructor.
+    + constructor. { now apply replace_tab_ws. } apply replace_tab_nil.
+    + constructor. now apply hd_last_replace.
+  - apply IH. now apply andb_true_iff in H as [_ H].
+Qed.
+
+Lemma map_stmt_vstmt {A B} (f : A -> B) s : map_stmt f (vstmt_sql s) = vstmt_sql s.
+Proof. destruct s; reflexivity. Qed.
+
+Section Text.
   Variable lit : value -> text.
   Variable parse_lit : text -> value.
   Variable untext : text -> text.
-  Theorem heads_invariant steps : forall d h s hf d2 h2,
-    snd d = Some h -> NoDup h ->
-    off_steps lit untext h steps = Some (s, hf) -> on_steps lit parse_lit untext d h steps = Some (d2, h2) ->
-    h2 = hf /\ snd d2 = Some hf /\ NoDup hf.
+  (* SQLAlchemy's compiler (with the token structure of its output) and SQLite's reading of one chunk of the script *)
+  Variable render : sqlstmt -> stext.
+  Variable sqlite : text -> option sqlstmt.
+  Variable term : text.
+  Variable supported : sqlstmt -> bool.         (* the constructs the two hypotheses are assumed for *)
+  Hypothesis render_wf : forall s, supported s = true -> stext_wf (render s) = true.
+  Hypothesis sqlite_reads : forall s g core', supported s = true ->
+    Forall2 (tok_sim g) (st_core (render s)) core' -> sqlite (flat core' ++ term) = Some (map_stmt g s).
+
+  (* what SQLite reads from the text _exec wrote: the construct with post applied to its literals *)
+  Theorem text_read s : supported s = true -> sqlite (exec_text render term s) = Some (map_stmt post s).
   Proof.
-    induction steps as [|st r IH]; intros d h s hf d2 h2 S ND Eoff Eon.
-    { simpl in *. inversion Eoff; inversion Eon; subst. auto. }
-    cbn [off_steps on_steps] in *.
-    destruct (hm_list h (s_bk st)) as [h'|] eqn:Ehm; try discriminate.
-    destruct (off_steps lit untext h' r) as [[s' hf']|] eqn:Er; try discriminate. inversion Eoff; subst hf'. clear Eoff.
-    destruct (exec_list (rd_on parse_lit) d (body_on lit untext (s_body st))) as [d1|] eqn:Eb; try discriminate.
-    pose proof (body_on_snd lit parse_lit untext _ _ _ Eb) as S1. rewrite S in S1.
-    destruct d1 as [u1 v1]; simpl in S1; subst v1.
-    pose proof (bk_sim parse_lit (s_bk st) u1 h ND) as B. rewrite Ehm in B. destruct B as [B _]. rewrite B in Eon.
-    eapply (IH (u1, Some h') h'); eauto. eapply hm_list_NoDup; eauto.
+    intros S. unfold exec_text. rewrite (exec_post_stext term (render s) (render_wf s S)).
+    apply sqlite_reads; auto. apply post_tok_sim.
+    pose proof (render_wf s S) as W. unfold stext_wf in W. now apply andb_true_iff in W as [_ W].
   Qed.
-End Heads.
+  Lemma replay_text_sim l : forallb supported l = true -> forall d,
+    replay_text_run parse_lit sqlite d (map (exec_text render term) l) = exec_run parse_lit d (map (map_stmt post) l).
+  Proof.
+    induction l as [|s l IH]; simpl; intros H d; auto. apply andb_true_iff in H as [H1 H2].
+    rewrite (text_read s H1). destruct (exec_stmt parse_lit d (map_stmt post s)); auto.
+  Qed.
+
+  Lemma compile_post o : map (map_stmt post) (compile_plain lit untext o) = compile_off lit untext o.
+  Proof.
+    unfold compile_plain, compile_off. destruct o; simpl; auto.
+    - f_equal. f_equal. rewrite map_map. apply map_ext. intros [n ty [v|] q]; reflexivity.
+    - f_equal. destruct c as [n ty [v|] q]; reflexivity.
+    - rewrite map_map. apply map_ext. intros row. simpl. f_equal. rewrite map_map. apply map_ext. intros [v|]; reflexivity.
+    - destruct r; simpl; auto. f_equal. f_equal. rewrite map_map. apply map_ext. intros [v|]; reflexivity.
+  Qed.
+  Lemma body_post b : map (map_stmt post) (body_plain lit untext b) = body_off lit untext b.
+  Proof.
+    unfold body_plain, body_off. induction b as [|o b IH]; cbn [flat_map map]; auto. rewrite map_app, compile_post. f_equal. exact IH.
+  Qed.
+  Lemma off_steps_post steps : forall h,
+    off_steps lit untext h steps =
+    match off_steps_plain lit untext h steps with Some (s, hf) => Some (map (map_stmt post) s, hf) | None => None end.
+  Proof.
+    induction steps as [|st r IH]; intros h; simpl; auto.
+    destruct (hm_list h (s_bk st)) as [h'|]; auto. rewrite IH.
+    destruct (off_steps_plain lit untext h' r) as [[s hf]|]; auto.
+    f_equal. f_equal. rewrite !map_app, body_post. f_equal; [destruct h; reflexivity|]. f_equal. f_equal.
+    rewrite map_map. apply map_ext. intros x. symmetry. apply map_stmt_vstmt.
+  Qed.
+  Lemma run_offline_post start steps :
+    run_offline lit untext start steps =
+    match run_offline_plain lit untext start steps with Some l => Some (map (map_stmt post) l) | None => None end.
+  Proof.
+    unfold run_offline, run_offline_plain. rewrite off_steps_post.
+    destruct (off_steps_plain lit untext start steps) as [[s hf]|]; auto.
+    f_equal. rewrite map_app. f_equal. destruct hf; reflexivity.
+  Qed.
+
+  (* executing the TEXT of the offline script = executing the abstract offline statement stream *)
+  Theorem text_effect d start steps :
+    (forall l, run_offline_plain lit untext start steps = Some l -> forallb supported l = true) ->
+    offline_text_effect lit parse_lit untext render sqlite term d start steps = offline_effect lit parse_lit untext d start steps.
+  Proof.
+    intros HS. unfold offline_text_effect, offline_text, offline_effect, replay, exec_list. rewrite run_offline_post.
+    destruct (run_offline_plain lit untext start steps) as [l|] eqn:E; auto.
+    rewrite (replay_text_sim l (HS l eq_refl)). reflexivity.
+  Qed.
+
+  Theorem same_effect_text d start steps :
+    db_at d start -> mid_nonempty start steps = true -> (start = [] -> steps <> []) ->
+    (forall v, In v (steps_values steps) -> parse_lit (lit v) = v) ->
+    (forall v, In v (steps_values steps) -> no_tab (lit v) = true) ->
+    (forall w, In w (steps_texts steps) -> no_tab (untext w) = true) ->
+    (forall l, run_offline_plain lit untext start steps = Some l -> forallb supported l = true) ->
+    option_map observable (offline_text_effect lit parse_lit untext render sqlite term d start steps)
+    = option_map observable (run_online lit parse_lit untext d steps).
+  Proof. intros. rewrite text_effect by auto. now apply same_effect. Qed.
+End Text.
 
 (* ================================================================ E. the concrete literal syntax *)
 Lemma text_uint_uint_text u : text_uint (uint_text u) = Some u.
@@ -477,46 +761,149 @@ Proof.
   destruct start as [|x start], (snd d) as [l|]; try discriminate; auto.
   apply text_eqb_sound in D. congruence.
 Qed.
-Theorem main_concrete i : inclass_C12 i = true -> C12_holds i (model_C12 i).
+Lemma inclass_hyps i : inclass_C12 i = true -> class_hyps lit_c parse_c untext_c (i_db i) (i_start i) (i_steps i).
 Proof.
   unfold inclass_C12, start_okb. intros H.
   apply andb_true_iff in H as [H H3]. apply andb_true_iff in H as [T R].
   apply andb_true_iff in H3 as [H3 NE]. apply andb_true_iff in H3 as [H3 M]. apply andb_true_iff in H3 as [D ND].
-  unfold C12_holds, model_C12; cbn [o_on o_off]. symmetry.
-  apply same_effect; auto.
-  - now apply db_atb_sound.
+  unfold no_tab_in_literalsb in T. apply andb_true_iff in T as [T1 T2].
+  unfold lits_roundtripb in R. rewrite forallb_forall in R, T1, T2.
+  split; [now apply db_atb_sound|]. split; auto. split.
   - intros E. rewrite E in NE. destruct (i_steps i); discriminate.
-  - intros v Hv. unfold lits_roundtripb in R. rewrite forallb_forall in R. apply value_eqb_sound. auto.
-  - intros v Hv. unfold no_tab_in_literalsb in T. apply andb_true_iff in T as [T _]. rewrite forallb_forall in T. auto.
-  - intros v Hv. unfold no_tab_in_literalsb in T. apply andb_true_iff in T as [_ T]. rewrite forallb_forall in T. auto.
+  - split; [intros v Hv; split; [apply value_eqb_sound|]; auto|auto].
+Qed.
+Theorem main_concrete i : inclass_C12 i = true -> C12_holds i (model_C12 i).
+Proof.
+  intros H. pose proof (outcome_sim lit_c parse_c untext_c _ _ _ (inclass_hyps i H)) as O.
+  unfold C12_holds, model_C12; cbn [o_on o_off].
+  destruct (offline_outcome lit_c parse_c untext_c (i_db i) (i_start i) (i_steps i)),
+           (online_outcome lit_c parse_c untext_c (i_db i) (i_steps i)); simpl; try contradiction; auto.
 Qed.
 
 (* ================================================================ G. witnesses *)
 (* create_table + bulk_insert of 'tab<TAB>here' from base *)
 Definition wit_tab : c12_in :=
-  mkIn (mkU [] [], None) [] [mkStep [CreateTable 0 [mkCol 0 2 None]; BulkInsert 0 [[Some (VText [116; 97; 98; 9; 104; 101; 114; 101])]]] [VIns 0]] [].
+  mkIn (mkU [] [], None) [] [mkStep [CreateTable 0 [mkCol 0 2 None false] []; BulkInsert 0 [[Some (VText [116; 97; 98; 9; 104; 101; 114; 101])]]] [VIns 0]] [].
 (* `upgrade base:base --sql`: nothing to do, yet the script drops the version table *)
 Definition wit_empty_plan : c12_in := mkIn (mkU [] [], None) [] [] [].
 (* a database at base whose (empty) version table is still there *)
 Definition wit_empty_vt : c12_in :=
-  mkIn (mkU [] [], Some []) [] [mkStep [CreateTable 0 [mkCol 0 0 None]; BulkInsert 0 [[Some (VInt 1)]]] [VIns 0]] [].
-(* a branched plan inside the class: r0 <- r1, r0 <- r2 applied from r0, quotes / NULL / numbers in the rows *)
+  mkIn (mkU [] [], Some []) [] [mkStep [CreateTable 0 [mkCol 0 0 None false] []; BulkInsert 0 [[Some (VInt 1)]]] [VIns 0]] [].
+(* a branched plan inside the class: r0 <- r1, r0 <- r2 applied from r0; defaults, NOT NULL, a primary key, a unique index,
+   omitted / None cells, a backslash-colon escape *)
 Definition wit_ok : c12_in :=
-  mkIn (mkU [mkTable 0 [mkCol 0 1 None; mkCol 1 0 (Some (VInt 3))] [[VText [105; 116; 39; 115]; VNull]]] [], Some [0]) [0]
-       [mkStep [AddColumn 0 (mkCol 2 4 (Some (VNum [49; 46; 53])));
-                BulkInsert 0 [[Some (VText [39; 39]); Some VNull; None]; [None; None; Some (VNum [50; 46; 53])]]; CreateIndex 0 0 [1]] [VUpd 0 1];
-        mkStep [CreateTable 1 [mkCol 3 2 (Some (VText [100]))];
+  mkIn (mkU [mkTable 0 [mkCol 0 1 None true; mkCol 1 0 (Some (VInt 3)) false] [[0]] [[VText [105; 116; 39; 115]; VNull]]] [], Some [0]) [0]
+       [mkStep [AddColumn 0 (mkCol 2 4 (Some (VNum [49; 46; 53])) true);
+                BulkInsert 0 [[Some (VText [39; 39]); Some VNull; None]; [Some (VText [107]); None; Some (VNum [50; 46; 53])]]; CreateIndex 0 0 [2; 0] true] [VUpd 0 1];
+        mkStep [CreateTable 1 [mkCol 3 2 (Some (VText [100])) false] [];
                 Execute (RInsert 1 [Some [39; 49; 50; 92; 58; 51; 48; 39]]); Execute (RInsert 1 [None]);
                 Execute (RUpdateAll 0 1 [55])] [VIns 2]] [32; 9; 120; 32].
+(* the same plan, but the second bulk row repeats the primary key of the first: both runs stop there *)
+Definition wit_abort : c12_in :=
+  mkIn (mkU [mkTable 0 [mkCol 0 1 None true; mkCol 1 0 None false] [[0]] []] [], Some [0]) [0]
+       [mkStep [CreateTable 1 [mkCol 2 0 None false] [];
+                BulkInsert 0 [[Some (VText [97]); Some (VInt 1)]; [Some (VText [98]); None]; [Some (VText [97]); Some (VInt 2)]]] [VUpd 0 1]] [].
 
 Lemma refuted_tab : exists i, lits_roundtripb (i_steps i) = true /\ start_okb i = true /\ ~ C12_holds i (model_C12 i).
 Proof. exists wit_tab. split; [vm_compute; reflexivity|]. split; [vm_compute; reflexivity|]. vm_compute. discriminate. Qed.
 Lemma refuted_empty_plan : exists i, no_tab_in_literalsb (i_steps i) = true /\ lits_roundtripb (i_steps i) = true /\
   db_atb (i_db i) (i_start i) = true /\ i_start i = [] /\ i_steps i = [] /\ ~ C12_holds i (model_C12 i).
-Proof. exists wit_empty_plan. repeat (split; [vm_compute; reflexivity|]). vm_compute. discriminate. Qed.
+Proof. exists wit_empty_plan. repeat (split; [vm_compute; reflexivity|]). vm_compute. auto. Qed.
 Lemma refuted_empty_vt : exists i, no_tab_in_literalsb (i_steps i) = true /\ lits_roundtripb (i_steps i) = true /\
   snd (i_db i) = Some [] /\ i_start i = [] /\ i_steps i <> [] /\ ~ C12_holds i (model_C12 i).
-Proof. exists wit_empty_vt. repeat (split; [vm_compute; reflexivity|]). split; [discriminate|]. vm_compute. discriminate. Qed.
+Proof. exists wit_empty_vt. repeat (split; [vm_compute; reflexivity|]). split; [discriminate|]. vm_compute. auto. Qed.
 Lemma main_nonvacuous : exists i, inclass_C12 i = true /\ length (i_steps i) = 2%nat /\
-  exists o, o_on (model_C12 i) = Some o /\ ob_vers o = [1; 2] /\ length (ob_tabs o) = 2%nat.
+  exists o, o_on (model_C12 i) = ROk o /\ ob_vers o = [1; 2] /\ length (ob_tabs o) = 2%nat.
 Proof. exists wit_ok. split; [vm_compute; reflexivity|]. split; [reflexivity|]. eexists. split; [vm_compute; reflexivity|]. split; reflexivity. Qed.
+(* an aborting run inside the class: the offline replay keeps the new table and two rows, the online run keeps the
+   new table (DDL before the first DML) and rolls the rows back *)
+Lemma abort_nonvacuous : exists i, inclass_C12 i = true /\
+  exists a b, o_on (model_C12 i) = RErr a /\ o_off (model_C12 i) = RErr b /\
+  length (ob_tabs a) = 2%nat /\ length (ob_tabs b) = 2%nat /\
+  map (fun t => length (t_rows t)) (ob_tabs a) = [0; 0]%nat /\ map (fun t => length (t_rows t)) (ob_tabs b) = [2; 0]%nat.
+Proof. exists wit_abort. split; [vm_compute; reflexivity|]. eexists. eexists. repeat (split; [vm_compute; reflexivity|]). vm_compute. reflexivity. Qed.
+
+(* ================================================================ H. a toy compiler / reader pair satisfying the hypotheses of
+   Section Text (code points stand for whole keywords and for ids): INSERT of one literal and the version-table statements *)
+Definition supported_c (s:sqlstmt) : bool :=
+  match s with
+  | SInsert t [Some l] => negb (is_ws t) && hd_last_ok l
+  | SVInsert r => negb (is_ws r)
+  | SVUpdate a b => negb (is_ws a) && negb (is_ws b)
+  | SVCreate | SVDrop => true
+  | _ => false
+  end.
+Definition render_c (s:sqlstmt) : stext :=
+  match s with
+  | SInsert t [Some l] => mkSText [10] [TWord [1000; t]; TSpace [9]; TLit l] [10; 10]
+  | SVInsert r => mkSText [] [TWord [1001; r]] [32]
+  | SVUpdate a b => mkSText [] [TWord [1002; a; b]] []
+  | SVCreate => mkSText [10] [TWord [1003]] [10]
+  | SVDrop => mkSText [10] [TWord [1004]] [10]
+  | _ => mkSText [] [] []
+  end.
+Definition sqlite_c (x:text) : option sqlstmt :=
+  match x with
+  | 1000 :: t :: rest => match lstrip rest with [] => None | r => Some (SInsert t [Some (removelast r)]) end
+  | 1001 :: r :: [59] => Some (SVInsert r)
+  | 1002 :: a :: b :: [59] => Some (SVUpdate a b)
+  | 1003 :: [59] => Some SVCreate
+  | 1004 :: [59] => Some SVDrop
+  | _ => None
+  end.
+Lemma hd_last_pre a pre l : is_ws a = false -> hd_last_ok l = true -> hd_last_ok (a :: pre ++ l) = true.
+Proof.
+  intros Ha H. destruct (hd_last_split l H) as [x [m [-> [Hx Hm]]]]. unfold hd_last_ok. rewrite Ha. cbn [negb andb].
+  destruct Hm as [->|[m' [y [-> Hy]]]].
+  - change (a :: pre ++ [x]) with ((a :: pre) ++ [x]). rewrite last_last. now rewrite Hx.
+  - replace (a :: pre ++ x :: m' ++ [y]) with ((a :: pre ++ x :: m') ++ [y]) by (simpl; now rewrite <- app_assoc).
+    rewrite last_last. now rewrite Hy.
+Qed.
+Lemma toy_render_wf s : supported_c s = true -> stext_wf (render_c s) = true.
+Proof.
+  destruct s; try discriminate; try reflexivity.
+  - destruct cells as [|[l|] [|]]; try discriminate. cbn [supported_c render_c]. intros H.
+    apply andb_true_iff in H as [H1 H2]. apply negb_true_iff in H1.
+    unfold stext_wf. cbn [st_lead st_trail st_core flat flat_map tok_text forallb tok_ok].
+    rewrite app_nil_r. change ([1000; t] ++ [9] ++ l) with (1000 :: [t; 9] ++ l).
+    rewrite (hd_last_pre 1000 [t; 9] l eq_refl H2), H2.
+    unfold no_tab, memN. cbn [existsb]. rewrite (N.eqb_sym 9 t), (not_ws_not_tab t H1). reflexivity.
+  - cbn [supported_c render_c]. intros H. apply negb_true_iff in H.
+    unfold stext_wf. cbn. rewrite H. unfold no_tab, memN. cbn [existsb]. rewrite (N.eqb_sym 9 r), (not_ws_not_tab r H). reflexivity.
+  - cbn [supported_c render_c]. intros H. apply andb_true_iff in H as [H1 H2]. apply negb_true_iff in H1, H2.
+    unfold stext_wf. cbn. rewrite H2. unfold no_tab, memN. cbn [existsb].
+    rewrite (N.eqb_sym 9 a), (not_ws_not_tab a H1), (N.eqb_sym 9 b), (not_ws_not_tab b H2). reflexivity.
+Qed.
+Lemma toy_reads s g core' : supported_c s = true ->
+  Forall2 (tok_sim g) (st_core (render_c s)) core' -> sqlite_c (flat core' ++ [59]) = Some (map_stmt g s).
+Proof.
+  destruct s; try discriminate.
+  - destruct cells as [|[l|] [|]]; try discriminate. cbn [supported_c render_c st_core]. intros _ F.
+    inversion F as [|? ? ? ? T1 F1]; subst. inversion F1 as [|? ? ? ? T2 F2]; subst. inversion F2 as [|? ? ? ? T3 F3]; subst.
+    inversion F3; subst. inversion T1; subst. inversion T2 as [|? s' W NE|]; subst. inversion T3 as [| |? HL]; subst.
+    cbn [flat flat_map tok_text]. rewrite app_nil_r. cbn [app sqlite_c map_stmt map option_map].
+    rewrite <- app_assoc, lstrip_ws by auto.
+    destruct (hd_last_split (g l) HL) as [x [m [E [Hx _]]]]. rewrite E. cbn [app lstrip]. rewrite Hx.
+    change (x :: m ++ [59]) with ((x :: m) ++ [59]). rewrite removelast_last. reflexivity.
+  - cbn [supported_c render_c st_core]. intros _ F. inversion F as [|? ? ? ? T1 F1]; subst. inversion F1; subst. inversion T1; subst. reflexivity.
+  - cbn [supported_c render_c st_core]. intros _ F. inversion F as [|? ? ? ? T1 F1]; subst. inversion F1; subst. inversion T1; subst. reflexivity.
+  - cbn [supported_c render_c st_core]. intros _ F. inversion F as [|? ? ? ? T1 F1]; subst. inversion F1; subst. inversion T1; subst. reflexivity.
+  - cbn [supported_c render_c st_core]. intros _ F. inversion F as [|? ? ? ? T1 F1]; subst. inversion F1; subst. inversion T1; subst. reflexivity.
+Qed.
+(* a one-step plan from base on a database that already has a table: every hypothesis of same_effect_text holds for the toy
+   pair, and the text-level replay completes *)
+Definition toy_db : db := (mkU [mkTable 0 [mkCol 0 2 None false] [] []] [], None).
+Definition toy_steps : list step := [mkStep [BulkInsert 0 [[Some (VText [105; 116; 39; 115])]]] [VIns 5]].
+Lemma text_nonvacuous :
+  (forall s, supported_c s = true -> stext_wf (render_c s) = true) /\
+  (forall s g core', supported_c s = true -> Forall2 (tok_sim g) (st_core (render_c s)) core' ->
+                     sqlite_c (flat core' ++ [59]) = Some (map_stmt g s)) /\
+  inclass_C12 (mkIn toy_db [] toy_steps []) = true /\
+  (forall l, run_offline_plain lit_c untext_c [] toy_steps = Some l -> forallb supported_c l = true) /\
+  exists d, offline_text_effect lit_c parse_c untext_c render_c sqlite_c [59] toy_db [] toy_steps = Some d /\
+            ob_vers (observable d) = [5] /\ map (fun t => length (t_rows t)) (ob_tabs (observable d)) = [1%nat].
+Proof.
+  split; [exact toy_render_wf|]. split; [exact toy_reads|]. split; [vm_compute; reflexivity|]. split.
+  - intros l E. vm_compute in E. inversion E; subst. vm_compute. reflexivity.
+  - eexists. split; [vm_compute; reflexivity|]. split; reflexivity.
+Qed.
